@@ -1,1 +1,2 @@
+import OtelVerif.Props.C07
 import OtelVerif.Props.C09
